@@ -105,56 +105,52 @@ def run(ctx: Ctx) -> None:
     r.floor(10)
 
     r = ctx.rule("R12.wb", "WB: a displaced block is bound and written back on the not-None path")
+    # On the normal form of every write-back method that allocates: the effect right after W = cache.write_block(..) is
+    # _write_block_to_memory(decoded_address=W[1][0], block=W[1][1]) exactly when W happened and W[1] is not None -- nothing that
+    # can raise in between (a store that crosses a word boundary does), whatever the displaced block is called or how it is unpacked.
+    import re as _re
+    from ..flowspec import _cond_ast
+    from ..parsershape import normal_flow
     sites = 0
     for name, f in sorted(wb.methods.items()):
-        sn = f.params[0]
-        for p in function_paths(f.node):
-            if p.term == "raise":
+        fl = normal_flow(m, f)
+        pr = fl.cprinter
+        calls = [e for e in fl.effects if e.kind in ("call", "raise")]
+        for i, e in enumerate(calls):
+            if not (e.kind == "call" and isinstance(e.expr, ast.Call) and isinstance(e.expr.func, ast.Attribute) and e.expr.func.attr == "write_block"
+                    and pr.show(e.expr.func.value).split("@")[0] == "P0.cache"):
                 continue
-            for i, e in enumerate(p.events):
-                for c in _calls_of(e, f):
-                    if not (isinstance(c.func, ast.Attribute) and self_attr(c.func.value, sn, "cache") and c.func.attr == "write_block"):
-                        continue
-                    key = f"WriteBackMemorySystem.{name}|write_block"
-                    sites += 1
-                    st = e.node
-                    dname = None
-                    if isinstance(st, ast.Assign) and isinstance(st.targets[0], ast.Tuple) and len(st.targets[0].elts) == 2 \
-                            and isinstance(st.targets[0].elts[1], ast.Name) and st.value is c:
-                        dname = st.targets[0].elts[1].id
-                    if dname is None:
-                        r.check(False, key, f.loc(c), f"{short(f.qname)}: the displaced block returned by cache.write_block is dropped")
-                        continue
-                    tested = None
-                    wrote = False
-                    parts: set = set()
-                    between: list = []
-                    for e2 in p.events[i + 1:]:
-                        if e2.kind == "test":
-                            for a, v in facts_of(e2.node, bool(e2.pol)):
-                                if a == f"None is {dname}":
-                                    tested = (not v)  # True: displaced is not None
-                        if e2.kind == "stmt" and isinstance(e2.node, ast.Assign) and isinstance(e2.node.value, ast.Name) \
-                                and e2.node.value.id == dname and isinstance(e2.node.targets[0], ast.Tuple):
-                            parts = {x.id for x in e2.node.targets[0].elts if isinstance(x, ast.Name)}
-                        for c2 in _calls_of(e2, f):
-                            if isinstance(c2.func, ast.Attribute) and c2.func.attr == "_write_block_to_memory":
-                                args = [ast.unparse(a) for a in c2.args]
-                                if len(args) == 2 and (set(args) <= parts or args == [f"{dname}[0]", f"{dname}[1]"]) and args[0] != args[1]:
-                                    wrote = True
-                            elif not wrote and tested is not False and not (isinstance(c2.func, ast.Name) and c2.func.id in ("int", "bool", "len", "isinstance")):
-                                between.append(c2)
-                    ok = tested is not None and (wrote if tested else True)
-                    r.check(ok, key, f.loc(c),
-                            f"{short(f.qname)}: after cache.write_block the displaced block `{dname}` is "
-                            + ("never tested against None" if tested is None else "not written back on the path where it is not None")
-                            + ": an evicted dirty block would be lost", None, ["path assumptions:"] + p.assumptions())
-                    r.check(not between, key + "|then-write-back", f.loc(between[0]) if between else f.loc(c),
-                            f"{short(f.qname)}: `{seg(f, between[0]) if between else ''}` runs between cache.write_block (which may displace a written block) "
+            sites += 1
+            key = f"WriteBackMemorySystem.{name}|write_block"
+            W = _re.sub(r"@\d+", "", pr.show(e.expr))
+            nxt = calls[i + 1] if i + 1 < len(calls) else None
+            ok = nxt is not None and nxt.kind == "call" and isinstance(nxt.expr, ast.Call) and isinstance(nxt.expr.func, ast.Attribute) \
+                and nxt.expr.func.attr == "_write_block_to_memory"
+            if not ok:
+                between = nxt
+                later = any(x.kind == "call" and isinstance(x.expr, ast.Call) and isinstance(x.expr.func, ast.Attribute) and x.expr.func.attr == "_write_block_to_memory"
+                            for x in calls[i + 1:])
+                if later and between is not None:
+                    r.check(False, key + "|then-write-back", f.loc(between.node),
+                            f"{short(f.qname)}: `{_re.sub(r'@[0-9]+', '', pr.show(between.expr))[:90]}` runs between cache.write_block (which may displace a written block) "
                             "and the write-back of the displaced block; if it raises (a store that crosses a word boundary does), the displaced block is "
-                            "neither resident nor in backing memory", None, ["path assumptions:"] + p.assumptions())
-    if sites < 8:
-        raise AnalysisError(f"R12.wb: only {sites} (site, path) instances of cache.write_block in the write-back system")
+                            "neither resident nor in backing memory")
+                else:
+                    r.check(False, key, f.loc(e.node), f"{short(f.qname)}: the displaced block returned by cache.write_block is dropped: an evicted dirty block would be lost")
+                continue
+            got = _re.sub(r"@\d+", "", pr.show(nxt.expr))
+            want = f"P0._write_block_to_memory(block={W}[1][1], decoded_address={W}[1][0])"
+            r.check(got == want, key, f.loc(nxt.node), f"{short(f.qname)}: the displaced block is written back as `{got[:160]}`; it must be "
+                    "_write_block_to_memory(<displaced address>, <displaced words>) of the pair cache.write_block returned")
+            disp = ast.Subscript(value=e.expr, slice=ast.Constant(value=1), ctx=ast.Load())
+            want_c = ast.BoolOp(op=ast.And(), values=[_cond_ast(e.cond), ast.Compare(left=disp, ops=[ast.IsNot()], comparators=[ast.Constant(value=None)])]) \
+                if e.cond else ast.Compare(left=disp, ops=[ast.IsNot()], comparators=[ast.Constant(value=None)])
+            t = pr._tables([pr._bool(_cond_ast(nxt.cond)), pr._bool(want_c)])
+            r.check(t is not None and t[1][0] == t[1][1], key + "|when", f.loc(nxt.node),
+                    f"{short(f.qname)}: after cache.write_block the displaced block is not written back exactly on the path where it is not None "
+                    f"(it happens when `{pr.show_cond(nxt.cond)[:200]}`): an evicted dirty block would be lost")
+    if sites < 4:
+        raise AnalysisError(f"R12.wb: only {sites} cache.write_block site(s) in the write-back system")
 
     from ..cachesetspec import dirty_rule
     dirty_rule(ctx, "R12.set")
